@@ -42,7 +42,7 @@ CLAIMS.update({
    note="Trusted: llir builder contracts (type classes per LangRef), the induction hypothesis on c.evaluate for sub-expressions (each other Visit* method yields the descriptor and IR type of the checker's type), the compiler's set-up facts wfCompiler (distinct descriptors, IR constants' types), commentNode frame.",
    ref="6/C02"),
  "C04": dict(
-   text="Partial (rule 'operand of a wrong type', so far). For the type checker's VisitUnaryExpr, VisitBinaryExpr (arithmetic, durch, modulo, bitwise, shifts, comparisons, entweder-oder) and VisitTernaryExpr (zwischen), per operator: an operand tuple that is inadmissible by the language's typing table is reported (the module becomes faulty through the one error path err, which is itself under contract), an admissible one adds no diagnostic, and the result type is the one the table gives. The same table (package ast contracts) is the precondition of the code generator's contracts under C02. isOneOf is proved to be membership up to type equivalence. The remaining rules of the statement (names, redeclaration, constants, loops, returns, visibility, articles) are not yet under contract.",
+   text="Partial (rule 'operand of a wrong type', so far). For the type checker's VisitUnaryExpr, VisitBinaryExpr (arithmetic, durch, modulo, bitwise, shifts, comparisons, entweder-oder) and VisitTernaryExpr (zwischen), per operator: an operand tuple that is inadmissible by the language's typing table is reported (the module becomes faulty through the one error path err, which is itself under contract), an admissible one adds no diagnostic, and the result type is the one the table gives. The same table (package ast contracts) is the precondition of the code generator's contracts under C02. isOneOf is proved to be membership up to type equivalence. Name rules of the resolver: a name used as a value that is undeclared or stands for a function/Kombination is reported and otherwise bound to its declaration; assignment to an undeclared name, a non-variable or a constant is reported; a redeclaration in the same scope is reported; break/continue outside a loop is reported; each report makes the module faulty through the one error path. Final return, visibility of private fields and articles are not under contract.",
    note="Trusted: Evaluate as induction hypothesis for sub-expressions, findOverload frame, ddptypes contracts (C14), diagnostic handler model.",
    ref="6/C04"),
  "C19": dict(
